@@ -749,6 +749,7 @@ def loadBpmFile (f : File α) : Bpm α :=
 
 /-- the state `LagElement.update` gives a particle (bent_plume_model.py l.3195-3222) -/
 structure PState (α : Type) where
+  heatOff : Bool        -- `properties` found the particle within 0.5 K of the plume water at the first row
   integrate : Bool
   tp : α
   xp : α
@@ -758,11 +759,14 @@ structure PState (α : Type) where
 /-- `load_sim` l.1378: `self.q_local = LagElement(self.t[0], self.q[0,:], …, self.particles, …)`.  Its
     `update` re-derives, from the FIRST row of the solution, every particle's `integrate` flag
     (X_p is NaN ⇔ outside) and, through `track`, its `t, x, y, z` — overwriting what the reader took
-    from the file (the state at the END of the simulation).  The values are those the plume
+    from the file (the state at the END of the simulation).  `particle.update → properties` (dispersed_phases
+    l.206-207) also sets `K_T = 0` for a particle that is within 0.5 K of the plume water at that row; unlike
+    `simulate` (l.311-313), `load_sim` does not restore `K_T` from `K_T0` afterwards.  The values are those the plume
     kinematics give (`st`, an input here: not data movement); no other definition field changes. -/
 def lagReset : List (PState α) → List (Particle α) → List (Particle α)
   | s :: st, p :: ps =>
-    { p with integrate := s.integrate, tp := s.tp, xp := s.xp, yp := s.yp, zp := s.zp } :: lagReset st ps
+    { p with K_T := if s.heatOff then 0 else p.K_T,
+             integrate := s.integrate, tp := s.tp, xp := s.xp, yp := s.yp, zp := s.zp } :: lagReset st ps
   | _, ps => ps
 
 /-- `bent_plume_model.Model.load_sim` -/
@@ -1087,12 +1091,13 @@ def pBpm : P (Bpm Float) := do
 
 def pStates : P (List (PState Float)) := do
   pMany (← pNat) (do
+    let h ← pBool
     let i ← pBool
     let t ← pF
     let x ← pF
     let y ← pF
     let z ← pF
-    pure ⟨i, t, x, y, z⟩)
+    pure ⟨h, i, t, x, y, z⟩)
 
 def pSpm : P (Spm Float) := do
   let ps ← pParticles
